@@ -313,6 +313,7 @@ func explore(r *core.Run, c kase, bound int) {
 		}
 		check := func(s *sched.S) bool {
 			nExec++
+			r.Alive()
 			fail := func(kind, detail string) bool {
 				var ch []int
 				for _, p := range s.Points {
